@@ -10,6 +10,7 @@ after any insertion history.
 import itertools
 import os
 import sys
+import time
 
 sys.path.insert(0, os.path.join(os.path.dirname(os.path.abspath(__file__)), "..", "tools"))
 from checklib import *  # noqa
@@ -214,16 +215,18 @@ def oracle(mode, ops, out_line):
     return None
 
 
-def shrink(impl, mode, init, ops):
-    """greedy deletion of operations while the oracle still fails on the implementation"""
+def shrink(impl, mode, init, ops, budget=25.0):
+    """greedy deletion of operations while the oracle still fails on the implementation (time-boxed:
+    a defect that makes the table hang costs seconds per probe)"""
     cur = list(ops)
     changed = True
     rounds = 0
-    while changed and rounds < 4 and len(cur) > 1:
+    deadline = time.time() + budget
+    while changed and rounds < 4 and len(cur) > 1 and time.time() < deadline:
         changed = False
         rounds += 1
         i = 0
-        while i < len(cur) and len(cur) > 1:
+        while i < len(cur) and len(cur) > 1 and time.time() < deadline:
             cand = cur[:i] + cur[i + 1:]
             o = run_lines_robust(impl, [line_of(mode, init, cand)], timeout=3, per_line_timeout=2)
             if oracle(mode, cand, o[0]) is not None:
@@ -256,7 +259,7 @@ def main(argv):
     c.sample({"history": lines[len(lines) // 2][:400]})
     c.sample({"history": lines[-1]})
 
-    impl_out = run_lines_robust(impl, size_lines + lines, timeout=120, per_line_timeout=5)
+    impl_out = run_lines_robust(impl, size_lines + lines, timeout=30 if c.tier == "quick" else 120, per_line_timeout=3, max_failures=3)
     # --- correspondence
     if drv is None:
         c.broken.append("extraction/driver build failed: " + dlog[-600:])
